@@ -23,6 +23,7 @@ type Val struct {
 }
 
 type Scope struct {
+	inOld bool // evaluating inside old(): names denote entry values
 	x          *Exec
 	vars       map[string]Val
 	st, old    *State
@@ -179,6 +180,16 @@ func (sc *Scope) ident(name string) Val {
 		}
 		for _, p := range fr.fn.Params {
 			if p.Name() == name {
+				// a parameter the body assigns to (or takes the address of) lives in a local cell: outside old() its
+				// name denotes the current content of that cell, once the cell exists
+				if !sc.inOld && sc.st != fr.entry {
+					if cell := paramCell(fr.fn, p); cell != nil {
+						if _, ok := fr.env[cell]; ok {
+							pt := cell.Type().Underlying().(*types.Pointer)
+							return Val{T: sc.x.load(sc.st, pt.Elem(), sc.valueOf(fr, cell)), Ty: pt.Elem()}
+						}
+					}
+				}
 				return Val{T: fr.val(p), Ty: p.Type()}
 			}
 		}
@@ -1116,4 +1127,21 @@ func (sc *Scope) quant(e EQuant) Val {
 func isFieldObj(o types.Object) bool {
 	v, ok := o.(*types.Var)
 	return ok && v.IsField()
+}
+
+// paramCell: the local cell go/ssa spills parameter p into (when the body assigns to it or takes its address): the Alloc
+// whose first store is the parameter itself
+func paramCell(fn *ssa.Function, p *ssa.Parameter) *ssa.Alloc {
+	refs := p.Referrers()
+	if refs == nil {
+		return nil
+	}
+	for _, r := range *refs {
+		if st, ok := r.(*ssa.Store); ok && st.Val == p {
+			if a, ok := st.Addr.(*ssa.Alloc); ok && a.Comment == p.Name() {
+				return a
+			}
+		}
+	}
+	return nil
 }
